@@ -107,7 +107,56 @@ class TempArg(ast.NodeTransformer):
     generic_visit = DropElse.generic_visit
 
 
-TRANSFORMS = {'flip-cmp': FlipCmp, 'swap-mult': SwapMult, 'invert-if': InvertIf, 'drop-else': DropElse, 'temp-return': TempReturn, 'temp-arg': TempArg}
+class DeMorgan(ast.NodeTransformer):
+    """not (a or b) -> (not a) and (not b); not (a and b) -> (not a) or (not b); a or b (as an if/while test) -> not (not a and not b)"""
+
+    def visit_UnaryOp(self, node):
+        self.generic_visit(node)
+        if isinstance(node.op, ast.Not) and isinstance(node.operand, ast.BoolOp):
+            op = ast.And() if isinstance(node.operand.op, ast.Or) else ast.Or()
+            return ast.copy_location(ast.BoolOp(op=op, values=[ast.UnaryOp(op=ast.Not(), operand=v) for v in node.operand.values]), node)
+        return node
+
+    def visit_If(self, node):
+        self.generic_visit(node)
+        if isinstance(node.test, ast.BoolOp):
+            op = ast.And() if isinstance(node.test.op, ast.Or) else ast.Or()
+            inner = ast.BoolOp(op=op, values=[ast.UnaryOp(op=ast.Not(), operand=v) for v in node.test.values])
+            node.test = ast.copy_location(ast.UnaryOp(op=ast.Not(), operand=inner), node.test)
+        return node
+
+
+class IfExpToIf(ast.NodeTransformer):
+    def _block(self, stmts):
+        out = []
+        for s in stmts:
+            if isinstance(s, ast.Assign) and isinstance(s.value, ast.IfExp) and len(s.targets) == 1 and isinstance(s.targets[0], (ast.Name, ast.Attribute)):
+                mk = lambda v: ast.copy_location(ast.Assign(targets=[copy.deepcopy(s.targets[0])], value=v), s)
+                out.append(ast.copy_location(ast.If(test=s.value.test, body=[mk(s.value.body)], orelse=[mk(s.value.orelse)]), s))
+            elif isinstance(s, ast.Return) and isinstance(s.value, ast.IfExp):
+                out.append(ast.copy_location(ast.If(test=s.value.test, body=[ast.copy_location(ast.Return(value=s.value.body), s)],
+                                                    orelse=[ast.copy_location(ast.Return(value=s.value.orelse), s)]), s))
+            else:
+                out.append(s)
+        return out
+
+    generic_visit = DropElse.generic_visit
+
+
+class TempCond(ast.NodeTransformer):
+    def _block(self, stmts):
+        out = []
+        for s in stmts:
+            if isinstance(s, ast.If) and not isinstance(s.test, ast.Name):
+                out.append(ast.copy_location(ast.Assign(targets=[ast.Name(id='_cond', ctx=ast.Store())], value=s.test), s))
+                s.test = ast.copy_location(ast.Name(id='_cond', ctx=ast.Load()), s.test)
+            out.append(s)
+        return out
+
+    generic_visit = DropElse.generic_visit
+
+
+TRANSFORMS = {'de-morgan': DeMorgan, 'ifexp-to-if': IfExpToIf, 'temp-cond': TempCond, 'flip-cmp': FlipCmp, 'swap-mult': SwapMult, 'invert-if': InvertIf, 'drop-else': DropElse, 'temp-return': TempReturn, 'temp-arg': TempArg}
 
 
 def variants():
